@@ -67,7 +67,7 @@ namespace AIToolbox::MDP {
     double SARSAL::getLearningRate() const { return alpha_; }
 
     void SARSAL::setDiscount(const double d) {
-        if ( d <= 0.0 || d > 1.0 ) throw std::invalid_argument("Discount parameter must be in (0,1]");
+        if ( !(d > 0.0 && d <= 1.0) ) throw std::invalid_argument("Discount parameter must be in (0,1]");
         discount_ = d;
         gammaL_ = lambda_ * discount_;
     }
